@@ -7,4 +7,30 @@ sys.path.insert(0, os.path.dirname(os.path.abspath(__file__)))
 from vlib.harness import main
 
 if __name__ == '__main__':
-	sys.exit(main())
+	# exit status 1 is reserved for "violation found": anything that goes wrong in the machinery itself (including a reader
+	# that closed our standard output early) must end with status 2, never with Python's default status 1 for an uncaught exception
+	try:
+		rc = main()
+		try:
+			sys.stdout.flush()
+		except BrokenPipeError:
+			# reader went away (e.g. `| head -1`): the verdict is unaffected
+			try:
+				sys.stdout = open(os.devnull, 'w')
+			except OSError:
+				pass
+	except SystemExit:
+		raise
+	except BrokenPipeError:
+		try:
+			sys.stdout = open(os.devnull, 'w')
+		except OSError:
+			pass
+		print('HARNESS-ERROR: standard output was closed by the reader before the verdict could be printed', file=sys.stderr)
+		rc = 2
+	except BaseException:
+		import traceback
+		traceback.print_exc()
+		print('HARNESS-ERROR: uncaught exception in the harness', file=sys.stderr)
+		rc = 2
+	sys.exit(rc)
